@@ -839,6 +839,7 @@ func (p *Parser) parseMapExpression() (Node, error) {
 
 	// Parse the map key-value pairs
 	items := make(map[Node]Node)
+	var order []Node
 
 	// Check if there are any items
 	if p.tokenIndex < len(p.tokens) &&
@@ -868,6 +869,7 @@ func (p *Parser) parseMapExpression() (Node, error) {
 
 			// Add key-value pair to map
 			items[keyExpr] = valueExpr
+			order = append(order, keyExpr)
 
 			// Check for comma separator between items
 			if p.tokenIndex < len(p.tokens) &&
@@ -897,6 +899,7 @@ func (p *Parser) parseMapExpression() (Node, error) {
 			line:     line,
 		},
 		items: items,
+		order: order,
 	}, nil
 }
 
